@@ -133,6 +133,13 @@ class LogErr(Exception):
     pass
 
 
+class _StrRaises:
+    def __str__(self):
+        raise RuntimeError("__str__ of a log argument raised")
+
+    __repr__ = __str__
+
+
 def render_log(segments, token, mapping=False):
     """segments: [["lit", text] | ["s", value] | ["d", int] | ["r", value]] -> (format string, args); format and
     arguments agree by construction; the token makes the line findable among the library's own lines. With
@@ -192,7 +199,14 @@ class DispErr(Exception):
     pass
 
 
-EXC = {"Exception": ProgErr, "ExcSubclass": ProgErrSub, "BaseExc": ProgBase}
+class ProgFalsy(ProgErr):
+    """an exception whose instances are falsy (e.g. an error collection that happens to be empty): still an exception"""
+
+    def __len__(self):
+        return 0
+
+
+EXC = {"Exception": ProgErr, "ExcSubclass": ProgErrSub, "BaseExc": ProgBase, "FalsyExc": ProgFalsy}
 
 
 _UNSET = "unset"
@@ -486,6 +500,15 @@ class Run:
     def do_log(self, op, path, mscope):
         token = f"tok{len(self.records) + len(self.log)}x"
         fmt, args = render_log(op["fmt"], token, mapping=bool(op.get("mapping")))
+        bad = op.get("bad")
+        if bad == "few":  # a conversion without an argument
+            fmt, args = fmt + " %s %d", (*args, "only-one") if not (args and isinstance(args[0], dict)) else args
+        elif bad == "many":  # more arguments than conversions
+            fmt, args = fmt, (*args, "extra", 2) if not (args and isinstance(args[0], dict)) else (args[0], "extra")
+        elif bad == "type":  # %d given a string
+            fmt, args = fmt + " %d", (*args, "not-a-number") if not (args and isinstance(args[0], dict)) else ("not-a-number",)
+        elif bad == "str_raises":  # an argument whose __str__ raises
+            fmt, args = fmt + " %s", (*args, _StrRaises()) if not (args and isinstance(args[0], dict)) else (_StrRaises(),)
         exc = LogErr(token) if op.get("exc") else None
         raised = None
         try:
@@ -500,7 +523,7 @@ class Run:
                 ctx.log_error(fmt, *args, exception=exc)
         except BaseException as e:  # noqa: BLE001 - "logging never raises"
             raised = e
-        self.ev("logop", path, token=token, level=op["level"], fmt=fmt, args=args, exc=exc if op.get("exc") and op["level"] != "info" else None, mscope=mscope, raised=raised)
+        self.ev("logop", path, token=token, level=op["level"], fmt=fmt, args=args, bad=bad, exc=exc if op.get("exc") and op["level"] != "info" else None, mscope=mscope, raised=raised)
 
 
 class Double:
